@@ -12,6 +12,12 @@ use crate::{axecutor::Axecutor, helpers::errors::AxError};
 #[wasm_bindgen]
 impl Axecutor {
     pub(crate) fn decode_at(&self, rip: u64) -> Result<Instruction, AxError> {
+        // Verification hook H6 (native replay builds only)
+        #[cfg(all(ax_verif, not(kani)))]
+        if let Some(f) = crate::helpers::vnondet::decode_override() {
+            return f(self, rip);
+        }
+
         // x86 instructions are at most 15 bytes long; make sure we don't read past the end of the code
         let code = &self.mem_read_executable_bytes(rip)?;
 
